@@ -11,6 +11,7 @@ from fvmon import history, gen
 from fvmon.observe import WF, wf_kind, snap
 
 SPEC = {
+    "anchors": ["fibertree.core.fiber:Fiber._checkOrdered", "fibertree.core.fiber:Fiber._checkUnique", "fibertree.core.fiber:Fiber._coord2pos", "fibertree.core.fiber:Fiber._create_payload", "fibertree.core.fiber:Fiber.append", "fibertree.core.fiber:Fiber.extend", "fibertree.core.fiber:Fiber.__setitem__", "fibertree.core.fiber:Fiber.updateCoords", "fibertree.core.fiber:Fiber.updatePayloads", "fibertree.core.iterators:__lshift__", "fibertree.core.fiber:Fiber.__ilshift__", "fibertree.core.fiber:Fiber.clear", "fibertree.core.fiber:Fiber.__iadd__", "fibertree.core.fiber:Fiber.__imul__", "fibertree.core.iterators:iterRangeShapeRef"],
     "rule": ("case = initial tree (every public constructor; free depth-1 fibers and tensors of depth 1-3; canonical "
              "or holding explicit defaults / empty sub-fibers; default 0 or 7) + a random history of 5-40 (quick) / "
              "5-120 (thorough) public mutators over a 24-operation alphabet with boundary-biased arguments (legal "
